@@ -65,7 +65,7 @@ func isClosedChan(ch <-chan struct{}) bool {
 	}
 }
 
-func c06RunExit(handler bool, mpl int, stream []byte) c06ExitObs {
+func c06RunExit(handler bool, mpl int, burst bool, stream []byte) c06ExitObs {
 	o := c06ExitObs{Survived: true}
 	var mu sync.Mutex
 	var states []string
@@ -76,7 +76,13 @@ func c06RunExit(handler bool, mpl int, stream []byte) c06ExitObs {
 	}
 	inner := newMemConn(1, func(c *memConn, pkt []byte) error {
 		if pkt[0]&0xF0 == 0x10 {
-			c.send(connackOK)
+			if burst {
+				// the stream arrives in the same burst as CONNACK
+				c.send(append(append([]byte{}, connackOK...), stream...))
+				c.finish()
+			} else {
+				c.send(connackOK)
+			}
 		}
 		return nil
 	})
@@ -100,14 +106,37 @@ func c06RunExit(handler bool, mpl int, stream []byte) c06ExitObs {
 		o.ErrAtEntry = errClass(cli.Err())
 		o.StatesAtEntry = snap()
 	}
-	ctx, cancel := ctxTimeout(5 * time.Second)
-	defer cancel()
-	if _, err := cli.Connect(ctx, "cid"); err != nil {
-		close(g.release)
-		return c06ExitObs{Crash: "connect: " + err.Error()}
+	if burst {
+		// the caller of Connect is held after its CONNECT write until the link is down
+		hold := newC06HoldCtx()
+		connRes := make(chan error, 1)
+		go func() {
+			_, err := cli.Connect(hold, "cid")
+			connRes <- err
+		}()
+		defer func() {
+			close(hold.release)
+			select {
+			case <-connRes:
+			case <-time.After(5 * time.Second):
+			}
+		}()
+		select {
+		case <-hold.entered:
+		case <-time.After(5 * time.Second):
+			close(g.release)
+			return c06ExitObs{Crash: "connect: the caller of Connect did not reach its select"}
+		}
+	} else {
+		ctx, cancel := ctxTimeout(5 * time.Second)
+		defer cancel()
+		if _, err := cli.Connect(ctx, "cid"); err != nil {
+			close(g.release)
+			return c06ExitObs{Crash: "connect: " + err.Error()}
+		}
+		inner.send(stream)
+		inner.finish()
 	}
-	inner.send(stream)
-	inner.finish()
 	select {
 	case <-g.entered:
 		// Close() is in progress and held
